@@ -328,8 +328,6 @@ class _FakeDatetime(_dt.datetime):
         return CLOCK.tick()
 
 
-def install_clock(reset=False):
+def install_clock():
     """distinct, increasing snapshot timestamps (the properties quantify over distinct timestamps)"""
     rrepo.datetime = _FakeDatetime
-    if reset:
-        CLOCK.now = _dt.datetime(2030, 1, 1, 0, 0, 0)
